@@ -205,11 +205,14 @@ Definition db_get_live (now : N) (d : db) (k : bytes) (v : N) : gres :=
   end.
 
 (** Txn.Get additionally treats [Value == nil && Meta == 0] as absent.  A table
-    returns an empty value as a nil slice, a memtable as an empty non-nil one. *)
+    returns an empty value as a nil slice, a memtable as an empty non-nil one.
+    Under LSM.Get's running-best scan the answering record comes from a
+    memtable iff the memtable phase found a record of the final version (later
+    sources replace the best only with a strictly greater version). *)
 Definition in_mem (s : state) (k : bytes) (v : N) : bool :=
-  match first_some (mem_get k v (st_mem s) :: map (fun m => mem_get k v (snd m)) (rev (st_imms s))) with
-  | Some _ => true
-  | None => false
+  match fold_left (mem_step k v) (st_mem s :: map snd (rev (st_imms s))) None, get s k v with
+  | Some b, Some r => r_ver b =? r_ver r
+  | _, _ => false
   end.
 Definition txn_get (now : N) (d : db) (k : bytes) (ts : N) : gres :=
   match db_get d k ts with
